@@ -174,6 +174,8 @@ def threads(ops_per_thread, preempt, prefill):
         if c.mode != "sym":
             shim_locks(ly)          # the scheduler needs the shims in replay too
         old_items = []
+        # the pre-filled queue must be a state the lysosome can be in: no more items than its capacity
+        c.assume(abs(prefill) <= ly.max_queue_size)
         for i in range(abs(prefill)):
             it = w.waste_factory(waste_type=WasteType.MISFOLDED_PROTEIN, content={"raw_input": "x"}, source="pre")
             w.items.append(it)
